@@ -290,6 +290,19 @@ impl BackTracking for DSymBackTracking {
                 )
             );
 
+        #[cfg(feature = "verif")]
+        if state.curv >= self.min_curvature
+            && state.curv <= self.max_curvature
+            && self.base_curvature >= 0
+            && state.next >= self.orbit_count()
+        {
+            if !self.is_good(&state.vs, state.curv) {
+                crate::verif_hooks::hit("dsyms_gen.not_good");
+            } else if !self.is_canonical(&state.vs) {
+                crate::verif_hooks::hit("dsyms_gen.noncanonical");
+            }
+        }
+
         if good {
             Some(PartialDSym::from_fields(
                 self.dset.clone(),
@@ -320,6 +333,8 @@ impl BackTracking for DSymBackTracking {
 
                 if curv >= self.min_curvature {
                     if curv < 0 {
+                        #[cfg(feature = "verif")]
+                        crate::verif_hooks::hit("dsyms_gen.hyperbolic_cutoff");
                         if self.is_minimally_hyperbolic(&vs, curv) {
                             let next = self.orbit_count();
                             result.push(Self::State { vs, curv, next });
